@@ -317,8 +317,12 @@ class Program:
             return ['@slot:%s.%s' % (n.get('rec'), n['n'])]
         return ['?']
 
-    def slot(self, field, rec='sf_private_tag'):
+    def slot(self, field, rec='sf_private_tag', _seen=None):
         """names of real functions ever assigned to rec.field"""
+        _seen = _seen if _seen is not None else set()
+        if (rec, field) in _seen:
+            return set()
+        _seen.add((rec, field))
         d = self.slots.get((rec, field), {})
         out = set()
         for k in d:
@@ -327,7 +331,7 @@ class Program:
             if k.startswith('@slot:'):
                 r, fl = k[6:].split('.', 1)
                 if (r, fl) != (rec, field):
-                    out |= self.slot(fl, r)
+                    out |= self.slot(fl, r, _seen)
                 continue
             out.add(k)
         return out
